@@ -17,5 +17,5 @@ func SQLRowText(db *sql.DB, i int) string { return "" }
 func SQLInsertRaw(db *sql.DB, id string, createdUnix int64, keyRecord string) {}
 
 // SQLRowID / SQLRowCreated are the id column and the created column (unix seconds) of row i.
-func SQLRowID(db *sql.DB, i int) string      { return "" }
+func SQLRowID(db *sql.DB, i int) string     { return "" }
 func SQLRowCreated(db *sql.DB, i int) int64 { return 0 }
